@@ -50,6 +50,7 @@ InitSt(c) == [ tls        |-> c.implicitTLS,
                nrcpt      |-> 0,
                bdat       |-> "none",  \* "none" | "open" | "dead" (backend already returned)
                bplan      |-> "",      \* verdict plan of the open transfer
+               bk         |-> 0,       \* octets a failing backend will still read
                bytes      |-> 0,
                binarymime |-> FALSE,
                didAuth    |-> FALSE,
@@ -103,7 +104,7 @@ AbortCbs(s) == IF s.bdat = "open" THEN <<CB(DataName \o ".end:abort", s.sess)>> 
 \* c.reset(): abort transfer, Reset callback, envelope cleared.
 ResetCbs(s) == AbortCbs(s) \o (IF s.sess # 0 THEN <<CB("Reset", s.sess)>> ELSE <<>>)
 Cleared(s) == [s EXCEPT !.from = FALSE, !.nrcpt = 0, !.bdat = "none", !.bplan = "",
-                        !.bytes = 0]
+                        !.bk = 0, !.bytes = 0]
 
 \* Conn.Close(): abort transfer, Logout, socket closed. The closed state is
 \* terminal, so it is canonicalised.
@@ -269,6 +270,15 @@ BdatMalformed(v) ==
 
 BdatFinalErr == R(554, <<5, 0, 0>>)
 
+\* Backend plans for a chunked transfer (chosen with the first chunk):
+\*   "acc" / "rej"  read everything, return nil / an error at the end
+\*   "panic"        read everything, panic at the end
+\*   "early"        return an error at once, reading nothing
+\*   "mid1"/"mid4"  read 1 / 4 octets, then return an error
+\* st.bk is the number of octets a failing backend will still read.
+MidPlans == {"early", "mid1", "mid4"}
+KOf(p) == CASE p = "early" -> 0 [] p = "mid1" -> 1 [] p = "mid4" -> 4 [] OTHER -> 0
+
 \* v: "" (well-formed) | "3args" | "badlast";  p: plan chosen with the first chunk
 Bdat(v, n, lastc, p) ==
   LET cmd == CmdB("BDAT", v, n, lastc, p)
@@ -277,11 +287,11 @@ Bdat(v, n, lastc, p) ==
       begin == IF first THEN <<CB(dn \o ".begin", st.sess)>> ELSE <<>>
       \* the plan in force
       plan == IF first THEN p ELSE st.bplan
-      dead == st.bdat = "dead" \/ (first /\ p = "early")
-      earlyEnd == IF first /\ p = "early" THEN <<CB(dn \o ".end:none", st.sess)>> ELSE <<>>
+      K == IF first THEN KOf(p) ELSE st.bk
+      dead == st.bdat = "dead"
+      endNone == <<CB(dn \o ".end:none", st.sess)>>
   IN
   /\ InCmdMode /\ "bdat" \in Alphabet
-  /\ n \in ChunkSizes
   /\ v = "badlast" => ~lastc
   /\ IF v = "3args" THEN Just(cmd, R(501, <<5, 5, 4>>)) ELSE
      IF ~st.from \/ st.nrcpt = 0 THEN Just(cmd, R(502, <<5, 5, 1>>))
@@ -292,11 +302,25 @@ Bdat(v, n, lastc, p) ==
      ELSE IF dead THEN
           \* the backend has already returned an error
           IF n = 0 /\ ~lastc THEN
-               /\ st' = [st EXCEPT !.bdat = "dead", !.bplan = "early"]
-               /\ Emit(cmd, <<R(250, <<2, 0, 0>>)>>, begin \o earlyEnd)
+               /\ st' = st
+               /\ Emit(cmd, <<R(250, <<2, 0, 0>>)>>, <<>>)
           ELSE /\ st' = Cleared(st)
                /\ Emit(cmd, IF lastc THEN Finals(BdatFinalErr) ELSE <<BdatFinalErr>>,
-                       begin \o earlyEnd \o <<CB("Reset", st.sess)>>)
+                       <<CB("Reset", st.sess)>>)
+     ELSE IF plan \in MidPlans /\ n > K THEN
+          \* the backend fails inside this chunk: the rest of the chunk is
+          \* discarded, its error is the reply, the transaction ends
+          /\ st' = Cleared(st)
+          /\ Emit(cmd, IF lastc THEN Finals(BdatFinalErr) ELSE <<BdatFinalErr>>,
+                  begin \o endNone \o <<CB("Reset", st.sess)>>)
+     ELSE IF plan \in MidPlans /\ n = K THEN
+          \* the backend fails right after this chunk, which itself completes
+          IF lastc
+          THEN /\ st' = Cleared(st)
+               /\ Emit(cmd, Finals(BdatFinalErr), begin \o endNone \o <<CB("Reset", st.sess)>>)
+          ELSE /\ st' = [st EXCEPT !.bdat = "dead", !.bplan = plan, !.bk = 0,
+                                   !.bytes = IF cfg.maxBytes > 0 THEN @ + n ELSE 0]
+               /\ Emit(cmd, <<R(250, <<2, 0, 0>>)>>, begin \o endNone)
      ELSE IF lastc /\ plan = "panic" THEN
           \* the delivery panics after the last octet: recovered, 421 (LMTP: for
           \* every recipient), connection closed without a Reset
@@ -305,21 +329,30 @@ Bdat(v, n, lastc, p) ==
                   begin \o <<CB(dn \o ".end:eof", st.sess), CB("Logout", st.sess)>>)
      ELSE IF ~lastc THEN
           /\ st' = [st EXCEPT !.bdat = "open", !.bplan = plan,
+                              !.bk = IF plan \in MidPlans THEN K - n ELSE 0,
                               !.bytes = IF cfg.maxBytes > 0 THEN @ + n ELSE 0]
           /\ Emit(cmd, <<R(250, <<2, 0, 0>>)>>, begin)
-     ELSE /\ st' = Cleared(st)
+     ELSE \* LAST: the backend sees end-of-file (a failing backend before it
+          \* has read its fill) and returns its verdict
+          /\ st' = Cleared(st)
           /\ Emit(cmd, Finals(IF plan = "acc" THEN R(250, <<2, 0, 0>>) ELSE BdatFinalErr),
                   begin \o <<CB(dn \o ".end:eof", st.sess), CB("Reset", st.sess)>>)
 
-BdatAny ==
-  \/ \E v \in {"noarg", "badsize"} : BdatMalformed(v)
-  \/ \E n \in ChunkSizes, l \in BOOLEAN :
+BdatPlans == {"acc", "rej", "early"} \cup (IF "panic" \in Alphabet THEN {"panic"} ELSE {})
+                \cup (IF "mid" \in Alphabet THEN {"mid1", "mid4"} ELSE {})
+
+\* all BDAT steps with declared size n
+BdatSized(n) ==
+  \E l \in BOOLEAN :
        \/ \E v \in {"3args", "badlast"} : n > 0 /\ Bdat(v, n, l, "")
        \/ IF st.bdat = "none" /\ st.from /\ st.nrcpt > 0
              /\ ~(cfg.maxBytes > 0 /\ st.bytes + n > cfg.maxBytes)
-          THEN \E p \in {"acc", "rej", "early"} \cup (IF "panic" \in Alphabet THEN {"panic"} ELSE {}) :
-                  Bdat("", n, l, p)
+          THEN \E p \in BdatPlans : Bdat("", n, l, p)
           ELSE Bdat("", n, l, "")
+
+BdatAny ==
+  \/ \E v \in {"noarg", "badsize"} : BdatMalformed(v)
+  \/ \E n \in ChunkSizes : BdatSized(n)
 
 -----------------------------------------------------------------------------
 (* Simple commands *)
@@ -393,6 +426,7 @@ BdatCut(n, lastc, p, some) ==
   IN
   /\ InCmdMode /\ "cut" \in Alphabet
   /\ n \in ChunkSizes /\ n > 0
+  /\ ~(st.bdat = "open" /\ st.bplan \in MidPlans)
   /\ st.from /\ st.nrcpt > 0
   /\ ~(cfg.maxBytes > 0 /\ st.bytes + n > cfg.maxBytes)
   /\ (first <=> p # "")
